@@ -282,11 +282,16 @@ DoDiscard ==
     /\ UNCHANGED <<cfg, phase, ssl, mwi, cparams, eof, faulted, stmts, portals, skip, hq, h>>
 
 \* Simple Query (handleSimpleQuery).
+\* a server built without a parse function (NewServer(nil, ...)): Query and Parse are refused, like any failing message
+NoParser == "parser" \in DOMAIN cfg /\ cfg.parser = "nil"
+
 DoQuery ==
     /\ Reading("ready") /\ ~skip /\ Head1.t = "Q"
     /\ Consume
     /\ LET q == Head1.q IN
-       IF q.parse = "blank"
+       IF NoParser
+       THEN emit' = <<Rv(ErrAny), Rv(MsgReady)>> /\ UNCHANGED hq
+       ELSE IF q.parse = "blank"
        THEN emit' = <<Rv(MsgEmpty), Rv(MsgReady)>> /\ UNCHANGED hq
        ELSE IF q.parse = "err"
        THEN emit' = <<ParseCb(q), Rv(ErrRec(q.perr)), Rv(MsgReady)>> /\ UNCHANGED hq
@@ -473,7 +478,9 @@ DoParse ==
     /\ Reading("ready") /\ ~skip /\ Head1.t = "P"
     /\ Consume
     /\ LET q == Head1.q IN
-       IF q.parse = "blank"
+       IF NoParser
+       THEN ExtFail(ErrAny) /\ UNCHANGED stmts
+       ELSE IF q.parse = "blank"
        THEN \* a Parse whose query text is empty or blank is handed to the parser like any other text (the scripted
             \* parser does not know it: q = -1, and fails); nothing is stored
             emit' = <<Cb(WithCtx([name |-> "parse", q |-> -1])), Rv(ErrAny)>> /\ skip' = TRUE /\ UNCHANGED stmts
